@@ -66,11 +66,13 @@ deriving Repr, DecidableEq, Inhabited
 /-- what arrives on the initiator's exchange -/
 inductive Msg
   | resp (r : Resp)
-  /-- opcode PBKDFParamResponse, TLV does not parse -/
+  /-- opcode PBKDFParamResponse, TLV does not parse (`get_root_node_struct`: the root structure must be
+  terminated and span the whole payload; then the derived decoder) -/
   | respMalformed
   /-- Pake2 with a share that is a valid point (`pB`) and a 32-byte `cB` -/
   | pake2 (pB : Nat) (cb : CB)
-  /-- opcode Pake2: TLV does not parse / `pB` not 65 bytes / `cB` not 32 bytes / `pB` not a valid point -/
+  /-- opcode Pake2: TLV does not parse (root structure not terminated / trailing bytes, since the repair of
+  `C02-initiator-tlv-envelope`) / `pB` not 65 bytes / `cB` not 32 bytes / `pB` not a valid point -/
   | pake2Malformed
   /-- a StatusReport: `SessionEstablishmentSuccess` or not -/
   | status (success : Bool)
